@@ -27,7 +27,22 @@ pub(super) fn derive_schema(input: TokenStream) -> syn::Result<TokenStream> {
             &*container_attrs.serde.try_from,
         ) {
             (None, None, None) => schema_of_fields(
-                s.fields,
+                if container_attrs.serde.transparent {
+                    /* written as its only (not skipped) field */
+                    let mut the_field = None;
+                    for f in &s.fields {
+                        if !FieldAttributes::new(&f.attrs)?.serde.skip {
+                            the_field = Some(f.ty.clone());
+                            break
+                        }
+                    }
+                    match the_field {
+                        Some(ty) => Fields::Unnamed(syn::parse_quote! {(#ty)}),
+                        None => s.fields
+                    }
+                } else {
+                    s.fields
+                },
                 container_attrs.serde.rename_all.value()?.map(|(_, case)| *case),
                 container_attrs.serde.default
             )?,
